@@ -14,21 +14,23 @@ def main(tier, args):
     hf = [vf.BUILD + "/C16/hashes_%d.bin" % i for i in range(NPARTS)]
     parts = range(NPARTS) if not args.only else [int(args.only)]
     jobs = [("p%d" % i, [exe, str(i), str(NPARTS), str(cap), str(depth), str(nest), hf[i]]) for i in parts]
-    # lanes: (tag, environment, share of the machine cap, processes, max nesting depth, machine filter)
-    k = 1 if tier == "quick" else 2     # thorough: the new lanes get half their quick share (their machines are small; depth 7 is what costs)
-    lanes = [("late", {"C16_TERM_LATE": "1"}, 2, 8, nest, None),          # terminal state 0 and setInitState issued after states/routes/handlers
-             ("badh", {"C16_BAD_HANDLER": "1"}, 4, 4, nest, None),         # declining handlers return an id that names no state
-             ("null1", {"C16_NULLS": "1"}, 8 * k, 2, nest, None),              # half of the enter/exit/route actions nullptr, outermost machine without state-changed callback
-             ("null2", {"C16_NULLS": "2"}, 8 * k, 2, nest, None),              # the complementary half
-             ("null3", {"C16_NULLS": "3"}, 16 * k, 1, nest, None),             # no enter/exit/route action, no callback at all
-             ("twoph", {"C16_TWO_PHASE": "1"}, 8 * k, 2, nest, None),          # states; start();stop() on every machine; rest of the definition
-             ("enum2h", {"C16_ENUM": "1", "C16_TWO_HANDLERS": "1"}, 8 * k, 2, nest, None)]   # templated enum overloads; two specific handlers per state
-    if nest < 3:
-        lanes.append(("deep", {}, 5, 4, 3, "deep"))                          # nesting depth 3 only (double hand-back: grandchild and child terminate on one event)
+    # lanes: (tag, environment, machine cap, processes, max nesting depth, machine filter); 41 processes in the quick tier, as before round 2
+    k = 1 if tier == "quick" else 2     # thorough: the small lanes get half their quick share (their machines are small; depth 7 is what costs)
+    lanes = [("late", {"C16_TERM_LATE": "1"}, cap * 3 // 8, 6, nest, None),     # terminal state 0 and setInitState issued after states/routes/handlers
+             ("idmap", {"C16_IDMAP": "1"}, cap // (8 * k), 2, nest, None),        # sparse / unordered / negative / INT_MAX ids; the initial state is not the lowest id
+             ("badh", {"C16_BAD_HANDLER": "1"}, cap * 3 // 16, 3, nest, None),   # declining handlers return an id that names no state
+             ("share", {"C16_SHARE_SUB": "1"}, min(cap * 9 // 50, 8000) // k, 1, nest, "share"),   # one sub-machine instance attached under two states (only machines that have such a pair)
+             ("null1", {"C16_NULLS": "1"}, cap // (8 * k), 2, nest, None),       # half of the enter/exit/route actions nullptr, outermost machine without state-changed callback
+             ("null2", {"C16_NULLS": "2"}, cap // (8 * k), 2, nest, None),       # the complementary half
+             ("null3", {"C16_NULLS": "3"}, cap // (16 * k), 1, nest, None),      # no enter/exit/route action, no callback at all
+             ("twoph", {"C16_TWO_PHASE": "1"}, cap // (8 * k), 2, nest, None),   # states; start();stop() on every machine; rest of the definition
+             ("enum2h", {"C16_ENUM": "1", "C16_TWO_HANDLERS": "1", "C16_IDMAP": "1"}, cap // (8 * k), 2, nest, None)]   # templated enum overloads with translated ids; two specific handlers per state
+    if nest < 3:     # nesting depth 3 only (double hand-back: grandchild and child terminate on one event), plain and combined with two other lanes
+        lanes += [("deep", {}, cap // 10, 2, 3, "deep"), ("deepnull", {"C16_NULLS": "1"}, cap // 20, 1, 3, "deep"), ("deepbadh", {"C16_BAD_HANDLER": "1"}, cap // 20, 1, 3, "deep")]
     if not args.only:
-        for tag, env, share, np_, nd, flt in lanes:
+        for tag, env, lcap, np_, nd, flt in lanes:
             hl = [vf.BUILD + "/C16/hashes_%s_%d.bin" % (tag, i) for i in range(np_)]
-            jobs += [("%s%d" % (tag, i), [exe, str(i), str(np_), str(cap // share), str(depth), str(nd), hl[i]] + ([flt] if flt else []), env) for i in range(np_)]
+            jobs += [("%s%d" % (tag, i), [exe, str(i), str(np_), str(lcap), str(depth), str(nd), hl[i]] + ([flt] if flt else []), env) for i in range(np_)]
             hf = hf + hl
     vf.run_procs(res, jobs, env={"VERIF_DEADLINE_S": str(dl)}, log=log, jobs=24)
     vf.run_procs(res, [("merge", [exe, "merge"] + hf)], log=log)
@@ -47,26 +49,30 @@ def main(tier, args):
               rule="PROGRAMS: every canonical StateMachine definition in order of weight (<=3 states + optional user-defined terminal state, events {1,2} + any, "
                    "<=3 routes/state over (event|any, target incl. terminal, guard none/true/false/flip-flop), per-state handlers for a specific event and for any event "
                    "returning -1 or an existing target, a sub-machine per state, nesting depth <=%d, optional setInitState(1) with states registered in descending order, plus the one-state machines "
-                   "whose initial state does not exist (setInitState(7); setInitState(0) without a state 0: start() must fail, as top machine and as sub-machine); "
+                   "whose initial state does not exist (setInitState(7); setInitState(0) without a state 0: start() must fail, as top machine and as sub-machine, until the op setInitState(1) repairs them); "
+                   "every machine is first started while it has no state at all (must fail and leave nothing behind); "
                    "weight = states+routes+guards+handlers+flags+sub-machines; canonical = all states reachable, numbered in discovery order, first specific event is 1), first %d machines "
-                   "(see caps_hit for the weight reached). LANES on a share of that cap (same enumeration; shares of the quick tier, the thorough tier halves those below 1/4): 1/2 terminal state and setInitState issued after the routes that refer to them; "
-                   "1/4 declining handlers return an id that names no state (event dropped, machine stays usable); 1/8+1/8+1/16 enter/exit/route actions nullptr and state-changed callback not set "
+                   "(see caps_hit for the weight reached). LANES on a share of that cap (same enumeration; shares of the quick tier, the thorough tier halves those below 3/16): 3/8 terminal state and setInitState issued after the routes that refer to them; "
+                   "3/16 declining handlers return an id that names no state (event dropped, machine stays usable); 1/8 id translation (state ids 1000, 7, INT_MAX, event ids 65537, -5: sparse, negative, "
+                   "first-registered/initial state is not the lowest id; the model keeps 1,2,3); 9/50 restricted to machines in which two states have the same sub-machine definition (weight <=7): both states "
+                   "get ONE StateMachine instance; 1/8+1/8+1/16 enter/exit/route actions nullptr and state-changed callback not set "
                    "(two complementary halves by parity, then all of them); 1/8 two-phase definition (states, start();stop() on every machine, then terminal state, routes, handlers, sub-machines, "
-                   "setInitState, callback); 1/8 every definition call, run() and observer through the templated enum overloads, and every state with a specific handler has a second, declining handler for "
-                   "the other event; quick tier only: 1/5 restricted to machines of nesting depth 3 (thorough has depth 3 everywhere). Every run() carries a payload pointer (Event::extra) and every "
-                   "trace token records whether it arrived. "
+                   "setInitState, callback); 1/8 every definition call, run() and observer through the templated enum overloads with translated ids, and every state with a specific handler has a second, declining handler for "
+                   "the other event; quick tier only: 1/10 restricted to machines of nesting depth 3 (thorough has depth 3 everywhere) + 1/20 of those with null actions + 1/20 with bad handlers. "
+                   "run(1) carries a payload pointer (Event::extra), run(2) uses the one-argument Event(id); every trace token records the payload seen and, for sub-machine callbacks, the observers of every ancestor. "
                    "HISTORIES: per machine BFS over call sequences of {start,run(1),run(2),stop,restart} x {plain, every action of a machine calls start/run(1)/run(2)/stop/restart on its own machine} "
                    "+ {start,run(1),run(2),stop} x {every action calls newState/addRoute/addEvent/setSubStateMachine with valid arguments on its own machine} + the op 'definition calls the reference "
-                   "rejects in any phase' (duplicate newState, unknown from/to state, route/handler/sub-machine on a never-created state 0) on every machine of the hierarchy (35 ops), "
-                   "to depth %d, deduplicated on the observers of every machine of the hierarchy + guard parity + enter/exit ledger (states = distinct (machine, state) pairs; "
+                   "rejects in any phase' (duplicate newState, unknown from/to state, route/handler/sub-machine on a never-created state 0) on every machine of the hierarchy (35 ops; + setInitState(1) on the stopped unstartable machines where the hierarchy has one), "
+                   "to depth %d, deduplicated on the observers of every machine of the hierarchy + guard parity + enter/exit ledger + which machines were repaired (states = distinct (machine, state) pairs; "
                    "transitions = evaluated call sequences, each replayed on a fresh real hierarchy; the must-fail definition calls are also issued once after every build; every evaluated sequence, "
-                   "deduplicated or not, is followed by the epilogue restart; stop under all oracles). ORACLE: reference interpreter written from state_machine.h + property statement "
+                   "deduplicated or not, is followed by the epilogue restart; stop on the outermost machine and then start(); stop() directly on every other machine, under all oracles). ORACLE: reference interpreter written from state_machine.h + property statement "
                    "(+ pinned tests), compared step by step (guard/handler/exit/route/enter/state-changed trace incl. event id, payload and current/last/next/isRunning/isTerminated inside every action, "
                    "return value, observers of all machines after every call); enter/exit ledger balanced whenever the outermost machine is stopped (hence at the end of every sequence); re-entrant calls "
                    "(life-cycle and definition) rejected with state unchanged; definition calls the reference rejects return false and run no callback; ASan+UBSan; "
                    "distinct_nontrivial = distinct (trace+return value+observer) sequences (64-bit hashes, union over processes)" % (nest, cap, depth),
               assumptions=["handlers return -1 or an existing state id (other negative values are undocumented, DESIGN 1.7); the lane with an id that names no state expects the event to be dropped",
                            "re-entrant calls are made on the machine whose action is running, not on its parent or child (DESIGN 1.7)",
+                           "hierarchies are trees, except in the shared lane where two states of ONE machine share a sub-machine instance; an instance shared between different parents or levels is not generated",
                            "the user-defined terminal state has enter/exit actions only (no routes, handlers or sub-machine); setInitState(0) is generated only when state 0 was never created",
                            "a state exists when newState() created it: a state 0 that was never created is a legal route target / handler result but cannot carry routes, handlers or a sub-machine (state_machine.h: addRoute fails when the state does not exist)",
                            "definition calls with valid arguments are demanded to fail only when made from inside an action of the machine (the statement); between calls on a running machine only the always-invalid ones are issued; "
